@@ -13,14 +13,14 @@ Proof. exact Result.c03_result_of_spec. Qed.
 
 (* from the wire: any definite-length encoding (any legal length forms) of the whole LDAPMessage decodes to the message id, the
    response and (no) controls, and the response converts to exactly the server's fields *)
-Theorem c03_from_the_wire : forall m app_id code r ib env bs rest, (2 <= m)%nat ->
+Theorem c03_from_the_wire : forall m app_id code r ib env bs rest, (2 <= m)%nat -> id_ok ib = true ->
   wf_res code r -> env = C Universal 16 [P Universal 2 ib; spec_response app_id code r] -> BerEnc env bs ->
   decode_inner' (repaired_d m) (bs ++ rest) = DFrame (as_i32 (parse_uint ib)) (spec_response app_id code r) [] rest /\
   result_of_tree (spec_response app_id code r) = Ok r.
 Proof. exact ResultFixed.c03_from_the_wire_fixed. Qed.
 
 (* with response controls: OID, criticality (absent = false) and value (absent = none) of each control, in order *)
-Theorem c03_from_the_wire_with_controls : forall m app_id code r ib cts cs env bs rest, (2 <= m)%nat ->
+Theorem c03_from_the_wire_with_controls : forall m app_id code r ib cts cs env bs rest, (2 <= m)%nat -> id_ok ib = true ->
   wf_res code r -> Forall2 WfCtrl cts cs ->
   env = C Universal 16 [P Universal 2 ib; spec_response app_id code r; C Context 0 cts] -> BerEnc env bs ->
   decode_inner' (repaired_d m) (bs ++ rest) = DFrame (as_i32 (parse_uint ib)) (spec_response app_id code r) cs rest /\
@@ -37,6 +37,17 @@ Proof. exact Result.c03_equal_spec. Qed.
 Theorem c03_cmp_non_error_iff : forall c, cmp_non_error c = true <-> c = 5 \/ c = 6 \/ c = 10.
 Proof. exact Result.c03_cmp_non_error_iff. Qed.
 
+(* F28 / F30: nothing is folded into range - a result code that does not fit 32 bits makes the response malformed (as found, 2^32 read as
+   success), and the decoder never delivers a frame under a message id outside 0 .. 2^31-1 (as found, 2^32+1 was delivered as id 1) *)
+Theorem c03_refuted_F28 : rc_as_found [x01; x00; x00; x00; x00] = 0.
+Proof. exact Result.c03_refuted_F28. Qed.
+
+Theorem c01_decoded_id_in_range : forall (fx : dfix) (buf : list byte) (mid : N) (op : tree) (cs : list ctrl) (rest : list byte), fix30 fx = true -> decode_inner' fx buf = DFrame mid op cs rest -> mid <= 2147483647.
+Proof. exact FrameFixed.c01_decoded_id_in_range. Qed.
+
+Theorem c01_refuted_F30 : decode_inner' (repaired_d_but30 100) (b [48; 16; 2; 5; 1; 0; 0; 0; 1; 97; 7; 10; 1; 0; 4; 0; 4; 0]) = DFrame 1 (C Application 1 [P Universal 10 [x00]; P Universal 4 []; P Universal 4 []]) [] [] /\ decode_inner' (repaired_d 100) (b [48; 16; 2; 5; 1; 0; 0; 0; 1; 97; 7; 10; 1; 0; 4; 0; 4; 0]) = DErr.
+Proof. exact FrameFixed.c01_refuted_F30. Qed.
+
 Print Assumptions c03_result_of_spec.
 Print Assumptions c03_from_the_wire.
 Print Assumptions c03_from_the_wire_with_controls.
@@ -44,3 +55,6 @@ Print Assumptions c03_success_iff.
 Print Assumptions c03_non_error_iff.
 Print Assumptions c03_equal_spec.
 Print Assumptions c03_cmp_non_error_iff.
+Print Assumptions c03_refuted_F28.
+Print Assumptions c01_decoded_id_in_range.
+Print Assumptions c01_refuted_F30.
